@@ -68,4 +68,15 @@ Definition c20_mon (pre : cache) (p : op) (hashes : N) (rebuilt : bool) (post : 
   let free := match p with IterOp _ | DrainOp _ _ | Clear | DebugFmt | PeekLru | PeekMru | GetLru | Len | IsEmpty | CurrentSize | MaxSize | Capacity => true | _ => false end in
   if free then hashes =? 0
   else hashes <=? 2 + departed + (if rebuilt && may_rebuild then len post else 0).
+(* C13: the capacity inequalities, from observed quantities *)
+Definition c13_mon (pre : cache) (p : op) (o : out) (post : cache) : bool :=
+  let capb := capacity (tb pre) in let capa := capacity (tb post) in
+  match p, o with
+  | Reserve n, OUnit => len pre + n <=? capa
+  | TryReserve n, OResOk => len pre + n <=? capa
+  | TryReserve _, OResOverflow | TryReserve _, OResRefused => (capa =? capb) && (nb (tb post) =? nb (tb pre))
+  | ShrinkTo n, OUnit => (capa <=? capb) && (if N.max (len pre) n <=? capb then N.max (len pre) n <=? capa else true)
+  | ShrinkToFit, OUnit => (capa <=? capb) && (if len pre <=? capb then len pre <=? capa else true)
+  | _, _ => true
+  end.
 End Params.
